@@ -18,7 +18,6 @@ three repairs (other_cont edges counted; a child's end edge counted in the creat
 -/
 namespace MythVerif.DagRec
 
-abbrev Clock := Nat
 
 /-- `dr_dag_node_kind_t` -/
 inductive NKind where
@@ -41,7 +40,7 @@ inductive Variant where
   deriving DecidableEq, Repr, Inhabited
 
 /-- `logical_node_counts[0..3]` -/
-structure NC where
+@[ext] structure NC where
   create : Nat := 0
   wait : Nat := 0
   other : Nat := 0
@@ -49,7 +48,7 @@ structure NC where
   deriving DecidableEq, Repr, Inhabited
 
 /-- `logical_edge_counts[0..4]`, also used for `t_ready[0..4]` -/
-structure EC where
+@[ext] structure EC where
   end_ : Nat := 0
   create : Nat := 0
   createCont : Nat := 0
@@ -93,7 +92,7 @@ structure Pos where
 
 /-- `dr_clock_pos` (without counters / cpu) -/
 structure ClockPos where
-  t : Clock := 0
+  t : Nat := 0
   worker : Int := 0
   pos : Pos := {}
   deriving DecidableEq, Repr, Inhabited
@@ -102,11 +101,11 @@ structure ClockPos where
 structure Core where
   start : ClockPos := {}
   end_ : ClockPos := {}
-  est : Clock := 0
-  t1 : Clock := 0
-  tinf : Clock := 0
-  firstReadyT : Clock := 0
-  lastStartT : Clock := 0
+  est : Nat := 0
+  t1 : Nat := 0
+  tinf : Nat := 0
+  firstReadyT : Nat := 0
+  lastStartT : Nat := 0
   tReady : EC := {}
   nc : NC := {}
   ec : EC := {}
@@ -126,8 +125,8 @@ structure Info where
 /-- what the instrumentation calls supply for one interval: `dr_set_start_info` at its start
     (`spos`), the `dr_enter_*` / `dr_end_task` call at its end (`epos`) -/
 structure Raw where
-  startT : Clock := 0
-  endT : Clock := 0
+  startT : Nat := 0
+  endT : Nat := 0
   worker : Nat := 0
   spos : Pos := {}
   epos : Pos := {}
@@ -136,8 +135,8 @@ structure Raw where
 /-- the running state of a task between two intervals: `t->info.est`, `t->info.first_ready_t`,
     `t->info.in_edge_kind` -/
 structure Cursor where
-  est : Clock := 0
-  readyT : Clock := 0
+  est : Nat := 0
+  readyT : Nat := 0
   ek : EKind := .create
   deriving DecidableEq, Repr, Inhabited
 
@@ -181,7 +180,7 @@ def View.curBelow (x : View) : Nat :=
 /-- state of the loop of `dr_accumulate_stats`: `s->info` and the local `t_inf` -/
 structure Acc where
   s : Info
-  tinfMax : Clock := 0
+  tinfMax : Nat := 0
 
 /-- one iteration of the loop over `s->subgraphs` (`hasNext` = `x->next != 0`) -/
 def accStep (v : Variant) (a : Acc) (x : View) (hasNext : Bool) : Acc :=
@@ -222,35 +221,40 @@ def accLoop (v : Variant) : Acc → List View → Acc
   | a, [] => a
   | a, x :: rest => accLoop v (accStep v a x (!rest.isEmpty)) rest
 
+/-- the initialisation part of `dr_accumulate_stats` (`first`, `last` = first / last subgraph) -/
+def accInit (k : NKind) (first last : View) : Info :=
+  { c := { start := first.i.c.start, end_ := last.i.c.end_, worker := first.i.c.worker,
+           est := first.i.c.est, inEdgeKind := first.i.c.inEdgeKind,
+           firstReadyT := first.i.c.firstReadyT, lastStartT := last.i.c.start.t,
+           t1 := 0, tinf := 0, tReady := {}, nc := {}, ec := {}, nChild := 0, kind := k },
+    cur := 1, min := 1 }
+
+/-- the final part of `dr_accumulate_stats` -/
+def accFinish (a : Acc) : Info :=
+  { c := { a.s.c with tinf := Nat.max a.tinfMax a.s.c.tinf },
+    cur := a.s.cur, min := if a.s.c.worker ≠ -1 then 1 else a.s.min }
+
 /-- `dr_accumulate_stats(s)` for a section / task `s` of kind `k` with children `xs` -/
 def accumulate (v : Variant) (k : NKind) (xs : List View) : Info :=
   match xs with
   | [] => { c := { kind := k } }                  -- `dr_check(!empty)`: never happens
   | first :: _ =>
-    let last := xs.getLast?.getD first
-    let init : Info :=
-      { c := { start := first.i.c.start, end_ := last.i.c.end_, worker := first.i.c.worker,
-               est := first.i.c.est, inEdgeKind := first.i.c.inEdgeKind,
-               firstReadyT := first.i.c.firstReadyT, lastStartT := last.i.c.start.t,
-               t1 := 0, tinf := 0, tReady := {}, nc := {}, ec := {}, nChild := 0, kind := k },
-        cur := 1, min := 1 }
-    let a := accLoop v { s := init, tinfMax := 0 } xs
-    let s := a.s
-    { c := { s.c with tinf := Nat.max a.tinfMax s.c.tinf },
-      cur := s.cur, min := if s.c.worker ≠ -1 then 1 else s.min }
+    accFinish (accLoop v { s := accInit k first (xs.getLast?.getD first), tinfMax := 0 } xs)
+
+/-- one iteration of the loop over the waited children in `dr_return_from_wait_tasks__` -/
+def rfwStep (cur : Cursor) (x : View) : Cursor :=
+  match x.i.c.kind, x.child with
+  | .createTask, some ct =>
+    let cur := if cur.est < ct.c.est + ct.c.tinf then { cur with est := ct.c.est + ct.c.tinf } else cur
+    if cur.readyT < ct.c.end_.t then { cur with readyT := ct.c.end_.t, ek := .end_ } else cur
+  | _, _ => cur
 
 /-- `dr_return_from_wait_tasks__`: the cursor of the task after the section with children `xs` -/
 def returnFromWait (xs : List View) : Cursor :=
   match xs.getLast? with
   | none => {}
   | some p =>
-    let init : Cursor := { est := p.i.c.est + p.i.c.tinf, readyT := p.i.c.end_.t, ek := .waitCont }
-    xs.foldl (fun cur x =>
-      match x.i.c.kind, x.child with
-      | .createTask, some ct =>
-        let cur := if cur.est < ct.c.est + ct.c.tinf then { cur with est := ct.c.est + ct.c.tinf } else cur
-        if cur.readyT < ct.c.end_.t then { cur with readyT := ct.c.end_.t, ek := .end_ } else cur
-      | _, _ => cur) init
+    xs.foldl rfwStep { est := p.i.c.est + p.i.c.tinf, readyT := p.i.c.end_.t, ek := .waitCont }
 
 /-- cursor after returning from the interval `i` (`dr_return_from_create_task__` /
     `dr_return_from_other__`), and the cursor a created task starts with (`dr_start_task__`) -/
@@ -281,7 +285,7 @@ def viewForest (v : Variant) : Forest → Cursor → List View × Cursor
 end
 
 /-- the cursor of the root task: `dr_start_task__(0, …)` -/
-def rootCursor (startClock : Clock) : Cursor := { est := 0, readyT := startClock, ek := .create }
+def rootCursor (startClock : Nat) : Cursor := { est := 0, readyT := startClock, ek := .create }
 
 /-! ### the in-memory DAG and the contraction policies -/
 
@@ -337,8 +341,8 @@ end
 
 /-- the contraction options of `dr_options` -/
 structure Opts where
-  uncollapseMin : Clock := 0
-  collapseMax : Clock := 0
+  uncollapseMin : Nat := 0
+  collapseMax : Nat := 0
   collapseMaxCount : Nat := 0
   nodeCountTarget : Nat := 0
   pruneThreshold : Nat := 0
@@ -414,7 +418,7 @@ end
 def keepAll : Policy := fun i ds => .group i ds
 
 /-- `dr_start__ … dr_stop__` on a whole execution -/
-def record (v : Variant) (o : Opts) (startClock : Clock) (t : Tree) : DNode :=
+def record (v : Variant) (o : Opts) (startClock : Nat) (t : Tree) : DNode :=
   (recTree v (summarize v o) t (rootCursor startClock)).1
 
 /-! ### the flat interval list and the independent specification of the totals -/
@@ -474,13 +478,18 @@ def maxFinish : List Info → Nat
 
 /-! ### well-nestedness (the grammar) -/
 
+/-- the closing interval of a task (`end_task`) / of a section (`wait_tasks`) -/
+def isLast (inTask : Bool) : Tree → Bool
+  | .ival k _ => if inTask then k == .endTask else k == .waitTasks
+  | _ => false
+
 mutual
 /-- `inTask = true`: children of a task (`(section | other)* end`);
     `false`: children of a section (`(section | create | other)* wait`) -/
 def wnForest (inTask : Bool) : Forest → Bool
   | .nil => false
-  | .cons (.ival k _) .nil => if inTask then k == .endTask else k == .waitTasks
-  | .cons t rest => wnItem inTask t && wnForest inTask rest
+  | .cons t .nil => isLast inTask t
+  | .cons t (.cons t' rest) => wnItem inTask t && wnForest inTask (.cons t' rest)
 def wnItem (inTask : Bool) : Tree → Bool
   | .ival k _ => k == .other
   | .create _ child => !inTask && wnTask child
